@@ -26,19 +26,30 @@ import inject  # noqa: E402
 GROUPS = json.load(open(os.path.join(HERE, "groups.json")))
 
 
-def tree_hash():
+def tree_hash(group=None):
+    """hash of everything a group's verdict can depend on: the source files in the static call closure of its harnesses
+    (declared, generously, under `deps` in groups.json; default: all of src), its harness files, the injected contracts and
+    this driver.  A change elsewhere in the crate does not invalidate the group's cached verdict."""
     h = hashlib.sha256()
-    roots = [os.path.join(REPO, "src"), os.path.join(HERE, "harness")]
-    files = [os.path.join(REPO, "Cargo.toml"), os.path.join(HERE, "contracts.json"), os.path.join(HERE, "groups.json"), os.path.join(HERE, "kx.py"), os.path.join(HERE, "inject.py")]
+    cfg = GROUPS.get(group, {}) if group else {}
+    roots = [os.path.join(REPO, d) for d in cfg.get("deps", ["src", "Cargo.toml"])]
+    files = [os.path.join(HERE, "contracts.json"), os.path.join(HERE, "kx.py"), os.path.join(HERE, "inject.py")]
+    files += [os.path.join(HERE, "harness", f) for f in cfg.get("harness_files", sorted(os.listdir(os.path.join(HERE, "harness"))))]
+    h.update(json.dumps(cfg, sort_keys=True).encode())
     for r in roots:
-        for dp, dn, fn in sorted(os.walk(r)):
-            dn.sort()
-            for f in sorted(fn):
-                files.append(os.path.join(dp, f))
+        if os.path.isdir(r):
+            for dp, dn, fn in sorted(os.walk(r)):
+                dn.sort()
+                for f in sorted(fn):
+                    files.append(os.path.join(dp, f))
+        else:
+            files.append(r)
     for f in files:
+        h.update(f.encode())
         if os.path.exists(f):
-            h.update(f.encode())
             h.update(open(f, "rb").read())
+        else:
+            h.update(b"<missing>")
     return h.hexdigest()[:24]
 
 
@@ -97,7 +108,7 @@ def run_group(group, tier="quick"):
     if not harnesses:
         return out
     os.makedirs(os.path.join(BUILD, "cache"), exist_ok=True)
-    key = tree_hash()
+    key = tree_hash(group)
     cpath = os.path.join(BUILD, "cache", f"kani-{group}-{tier}-{key}.json")
     raw = None
     if os.path.exists(cpath):
